@@ -26,20 +26,21 @@ Init == /\ size \in 0..MaxSize
         /\ buf = [i \in 1..size |-> Pattern(i)]
         /\ p = 0 /\ touched = {} /\ nops = 0 /\ res = <<>>
 
-(* write `bytes` at the cursor iff they fit entirely; the cursor advances regardless *)
-Put(bytes) ==
-  LET sz == Len(bytes) IN
+(* write `bytes` (sz of them) at the cursor iff they fit entirely; the cursor advances regardless.  `bytes` is only looked
+   at when the item fits, so an item of 2^30 bytes that does not fit costs nothing to evaluate *)
+PutSz(sz, bytes) ==
   /\ IF Fits(sz)
        THEN /\ buf' = [i \in 1..size |-> IF i > p /\ i <= p + sz THEN bytes[i - p] ELSE buf[i]]
             /\ touched' = touched \cup (p+1)..(p+sz)
        ELSE UNCHANGED <<buf, touched>>
   /\ p' = p + sz /\ res' = <<>> /\ nops' = nops + 1 /\ UNCHANGED size
+Put(bytes) == PutSz(Len(bytes), bytes)
 
 (* read sz bytes at the cursor iff they are all inside; zero otherwise *)
 Get(sz) == IF Fits(sz) THEN SubSeq(buf, p + 1, p + sz) ELSE Zeros(sz)
 Take(sz, r) == /\ res' = r /\ p' = p + sz /\ nops' = nops + 1 /\ UNCHANGED <<size, buf, touched>>
 
-PackBytes(n, src) == TRUE /\ Put(IF src = "null" THEN Zeros(n) ELSE [i \in 1..n |-> (i * 16 + 1) % 256])   \* NULL source packs zeros
+PackBytes(n, src) == TRUE /\ PutSz(n, IF src = "null" THEN Zeros(n) ELSE [i \in 1..n |-> (i * 16 + 1) % 256])   \* NULL source packs zeros
 PackBytesV(bytes) == TRUE /\ Put(bytes)   \* (trace validation: any bytes)
 PackS16le(v) == TRUE /\ Put(Rev(v))
 PackU16le(v) == TRUE /\ Put(Rev(v))
@@ -47,7 +48,11 @@ PackU16be(v) == TRUE /\ Put(v)
 PackS32le(v) == TRUE /\ Put(Rev(v))
 PackU32le(v) == TRUE /\ Put(Rev(v))
 (* (the leading TRUE makes each operation an action of its own for TLC's labels and coverage) *)
-UnpackBytes(n, dst) == TRUE /\ Take(n, IF dst = "null" THEN <<>> ELSE Get(n))   \* NULL destination skips; overflow zero-fills the array
+UnpackBytes(n, dst) == TRUE /\ Take(n, IF dst = "null" THEN <<>> ELSE Get(n))
+(* Window abstraction used for buffers too large to write down (2^31 bytes and more): as long as every item requested so far
+   ends inside the first w bytes, a buffer of any size >= w behaves on those bytes exactly like a buffer of size w - Fits is
+   true in both.  (Checked on the bounded model by PrefixOfLarger.) *)
+PrefixOfLarger == \A bigger \in size..(size + 2) : \A sz \in 0..4 : (p + sz <= size) => (Fits(sz) <=> p + sz <= bigger)   \* NULL destination skips; overflow zero-fills the array
 UnpackChar == TRUE /\ Take(1, Get(1))
 UnpackS8 == TRUE /\ Take(1, Get(1))
 UnpackU8 == TRUE /\ Take(1, Get(1))
